@@ -33,33 +33,35 @@ type CexRec struct {
 }
 
 type JobResult struct {
-	mu           sync.Mutex
-	Harness      string
-	Shard        int
-	Status       string // ok | unsupported | bound | error
-	Msg          string
-	Obligations  int
-	Discharged   int
-	Trivial      int
-	Overflow     int // no-overflow / bounded-quotient obligations discharged
-	Inconclusive []string
-	Unknowns     map[string]int
-	Covers       map[string]int
-	Cuts         map[string]int
-	Vars         map[string]bool
-	Cex          []*CexRec
-	Witnesses    []*CexRec
-	Proved       map[string]int
-	Paths        int
-	PanicPaths   int
-	Steps        int64
-	States       int64
-	Branches     int64
-	Merges       int64
-	Solver       SolverStats
-	Fns          map[string]int
-	Wall         float64
-	sampleQ      []string
+	mu                                          sync.Mutex
+	Harness                                     string
+	Shard                                       int
+	Status                                      string // ok | unsupported | bound | error
+	Msg                                         string
+	Obligations                                 int
+	Discharged                                  int
+	Trivial                                     int
+	Overflow                                    int // no-overflow / bounded-quotient obligations discharged
+	Inconclusive                                []string
+	CrossChecked, CrossAgree, CrossInconclusive int
+	Disagree                                    []string
+	Unknowns                                    map[string]int
+	Covers                                      map[string]int
+	Cuts                                        map[string]int
+	Vars                                        map[string]bool
+	Cex                                         []*CexRec
+	Witnesses                                   []*CexRec
+	Proved                                      map[string]int
+	Paths                                       int
+	PanicPaths                                  int
+	Steps                                       int64
+	States                                      int64
+	Branches                                    int64
+	Merges                                      int64
+	Solver                                      SolverStats
+	Fns                                         map[string]int
+	Wall                                        float64
+	sampleQ                                     []string
 }
 
 func (j *JobResult) noteUnknown(what string) {
